@@ -14,7 +14,10 @@ from .common import ref_api, file_of, strip_ansi, tree_files, norm_rel
 from .c04 import parse_stdout
 
 C_NAMES = ["main.c", "a.c", "b.c", "util.h", "a.h", "my file.c", "a.b.c", "x.tar.h", "ft_x.c", "lib ft.h", "z.c", "types.h", "test.c",
-           "main.copy.c", "a.c.c", "a.h.c", "util.h.h", "a.c (1).c"]
+           "main.copy.c", "a.c.c", "a.h.c", "util.h.h", "a.c (1).c",
+           # glob metacharacters in FILE names (directory names with them stay outside the domain: the recursive pattern is built from
+           # the directory name, and the statement is silent about that)
+           "v[1].c", "v1.c", "a?.c", "ab.c", "x*.h", "[a].h"]
 OTHER_NAMES = ["a.cc", "a.hh", "b.C", "c.H", "d.c.bak", "e.ch", "f.c~", "g.hpp", "c", "h", "Makefile", "README.md", "notes.txt",
                "a.cpp", "x.o", "ac", "a.c.orig", "dotc.", "k.ｃ"]
 DIR_NAMES = ["src", "include", "lib", "sub dir", "v1.2", "d.c", "inc.h", "deep", "x", "objs.o", "a.b", "tests"]
@@ -137,8 +140,8 @@ class C15(Engine):
                  "paths, repetitions, a file plus its directory) from a seeded cwd, with and without --use-gitignore (stub git with a "
                  "model ignore set), every glob result permuted by an explicit permutation. Non-trivial = at least one file selected by "
                  "the model; distinct = distinct (canonical tree shape, argument-kind vector, gitignore on/off).")
-    assumptions = ["outside the domain (statement silent, never flagged): names starting with '.', glob metacharacters, newlines, "
-                   "symbolic links, unreadable directories",
+    assumptions = ["outside the domain (statement silent, never flagged): names starting with '.', glob metacharacters in DIRECTORY names, "
+                   "newlines, symbolic links, unreadable directories",
                    "git failing (rc 128 / binary missing): only 'ignored files never get a verdict' is asserted",
                    "file contents are of classes clean/notice/erroneous only (measured), so that no run aborts on a fatal file"]
 
@@ -558,6 +561,8 @@ def gitignore_text(rules):
     out = ""
     for r in rules:
         pat = "/" + r["path"].replace("\\", "\\\\").replace(" ", "\\ ")
+        for ch in "[]*?":        # the rules of the model are literal paths: escape what .gitignore would read as a pattern
+            pat = pat.replace(ch, "\\" + ch)
         out += ("!" if r["neg"] else "") + pat + "\n"
     return out
 
